@@ -105,6 +105,12 @@ func loadCodeInts() {
 		})
 		return nil
 	})
+	// a small constant k may be a shift count (n >> k, 1 << k computed at run time): 2^k is a candidate too
+	for n := range seen {
+		if n >= 5 && n <= 21 {
+			seen[1<<uint(n)] = true
+		}
+	}
 	for n := range seen {
 		codeIntsAll = append(codeIntsAll, n)
 	}
